@@ -899,12 +899,9 @@ func (c *admCase) doOp(op string) string {
 		r := c.rtpPubResult(name, stream(1), resp)
 		if resp.ErrorCode == base.ErrorCodeSucc {
 			sec, _ := c.sm.VerifPsPubTimeoutSec(stream(1))
-			// is the session listening on tcp?  then the port cannot be bound a second time
 			tcp := "0"
-			if l, err := net.Listen("tcp", ":"+strconv.Itoa(resp.Data.Port)); err != nil {
+			if isTcp, _ := c.sm.VerifPsPubIsTcp(stream(1)); isTcp {
 				tcp = "1"
-			} else {
-				_ = l.Close()
 			}
 			r += "~" + strconv.Itoa(int(sec)) + ":" + tcp
 		}
